@@ -540,11 +540,17 @@ REPEATED = [
     ("X_ERROR twice", "X_ERROR(0.25) 0 0\nM 0", False), ("M twice", "H 0\nM 0 0 !0", False), ("MR twice", "X 0\nMR 0 0\nM 0", False),
     ("CX pair twice", "H 0\nCX 0 1 0 1\nM 0 1", False), ("CX rec twice", "H 0\nM 0\nCX rec[-1] 1 rec[-1] 1 rec[-1] 2\nM 1 2", False),
     ("S_DAG three times", "H 0\nS_DAG 0 0 0\nH_YZ 0\nM 0", False), ("DEPOLARIZE1 twice", "DEPOLARIZE1(0.25) 0 0\nM 0", False),
+    # ELSE_CORRELATED_ERROR keeps its meaning ("unless the most recent element fired") across other instructions
+    ("ELSE after TICK", "E(0.5) X0\nTICK\nELSE_CORRELATED_ERROR(1) X1\nM 0 1", False),
+    ("ELSE after gate", "E(0.5) X0\nH 2\nELSE_CORRELATED_ERROR(1) X1\nM 0 1", False),
+    ("ELSE after QUBIT_COORDS and noise", "E(0.25) X0 X1\nQUBIT_COORDS(1, 2) 2\nX_ERROR(0.25) 2\nELSE_CORRELATED_ERROR(0.5) X1\nM 0 1 2", False),
+    ("ELSE after measurement", "E(0.5) X0\nM 2\nELSE_CORRELATED_ERROR(1) X1\nELSE_CORRELATED_ERROR(1) X2\nM 0 1 2", False),
+    ("ELSE after detector", "H 2\nM 2\nE(0.5) X0\nDETECTOR rec[-1]\nELSE_CORRELATED_ERROR(1) X1\nM 0 1\nDETECTOR rec[-1] rec[-2]", True),
 ]
 
 
 def repeated_section(ctx: Ctx):
-    """targets repeated inside one instruction: read as Stim reads them (every occurrence counts)"""
+    """targets repeated inside one instruction: read as Stim reads them (every occurrence counts); chains with other instructions between their elements"""
     for key, text, det in REPEATED:
         res = _run_probe((key, "det" if det else "zz", text, det, 0, 0))
         ctx.count(("repeated", key), nontrivial=True, bucket="repeated-targets")
